@@ -24,9 +24,9 @@ HEADER0 = "From PintV Require Import Model.UC Model.CtxState Model.CtxStateRun.\
 # (name, scale, reference) — the harness's own description; pint gets definition lines
 # rendered from it, the Coq model gets literals rendered from it.
 UNITS = [
-    ("meter", F(1), {"[length]": 1}),
-    ("second", F(1), {"[time]": 1}),
-    ("gram", F(1), {"[mass]": 1}),
+    ("meter", F(1), {"[L]": 1}),
+    ("second", F(1), {"[T]": 1}),
+    ("gram", F(1), {"[M]": 1}),
     ("inch", F(127, 5000), {"meter": 1}),
     ("foot", F(12), {"inch": 1}),
     ("yard", F(3), {"foot": 1}),
@@ -36,9 +36,9 @@ UNITS = [
     ("sqyd", F(1), {"yard": 2}),
 ]
 HERTZ_R1 = ("hertz", F(1), {"second": -1})
-HERTZ_R2 = ("hertz", F(1), {"[frequency]": 1})
-DIMS_COMMON = {"[speed]": {"[length]": 1, "[time]": -1}, "[area]": {"[length]": 2}}
-DIMS_R1 = dict(DIMS_COMMON, **{"[frequency]": {"[time]": -1}})
+HERTZ_R2 = ("hertz", F(1), {"[F]": 1})
+DIMS_COMMON = {"[V]": {"[L]": 1, "[T]": -1}, "[A]": {"[L]": 2}}
+DIMS_R1 = dict(DIMS_COMMON, **{"[F]": {"[T]": -1}})
 DIMS_R2 = dict(DIMS_COMMON)
 # default system "mini": the lines `inch` and `minute` replace the root units meter and second
 SYS_LINES = ["inch", "minute"]
@@ -49,17 +49,17 @@ DEFINABLE = {"smoot": (F(67), {"inch": 1}), "blip": (F(2), {"foot": 1})}
 #   meaning  value * coef [* par | / par] * units
 CTX = {
     "ra": dict(defaults={"n": F(3)}, rules=[
-        ("[length]", "[time]", F(1), ("n", False), {"second": 1, "meter": -1}),
-        ("[time]", "[length]", F(1), ("n", True), {"meter": 1, "second": -1})], redefs=[]),
+        ("[L]", "[T]", F(1), ("n", False), {"second": 1, "meter": -1}),
+        ("[T]", "[L]", F(1), ("n", True), {"meter": 1, "second": -1})], redefs=[]),
     "rb": dict(defaults={}, rules=[], redefs=[("foot", F(10), {"inch": 1}), ("minute", F(30), {"second": 1})]),
     "rc": dict(defaults={"k": F(2)}, rules=[
-        ("[speed]", "[mass]", F(1), ("k", True), {"gram": 1, "second": 1, "meter": -1}),
-        ("[length]", "[time]", F(1, 5), None, {"second": 1, "meter": -1}),
-        ("[time]", "[mass]", F(2), None, {"gram": 1, "second": -1})],
+        ("[V]", "[M]", F(1), ("k", True), {"gram": 1, "second": 1, "meter": -1}),
+        ("[L]", "[T]", F(1, 5), None, {"second": 1, "meter": -1}),
+        ("[T]", "[M]", F(2), None, {"gram": 1, "second": -1})],
         redefs=[("yard", F(2), {"foot": 1})]),
-    "rd": dict(defaults={}, rules=[("[mass]", "[length]", F(7), None, {"meter": 1, "gram": -1})],
+    "rd": dict(defaults={}, rules=[("[M]", "[L]", F(7), None, {"meter": 1, "gram": -1})],
                redefs=[("yard", F(4), {"foot": 1}), ("foot", F(2), {"second": 1}), ("minute", F(20), {"second": 1})]),
-    "rs": dict(defaults={"k": F(2)}, rules=[("[frequency]", "[length]", F(1), ("k", True), {"meter": 1, "hertz": -1})],
+    "rs": dict(defaults={"k": F(2)}, rules=[("[F]", "[L]", F(1), ("k", True), {"meter": 1, "hertz": -1})],
                redefs=[]),
 }
 REDEFINING = {n for n, c in CTX.items() if c["redefs"]}
@@ -136,7 +136,7 @@ def coq_setup(qk):
 
     def cfg(second):
         dims = DIMS_R2 if second else DIMS_R1
-        return ("(RC (mkum [" + "; ".join(f"({coq_str(k)}, {cuc(v)})" for k, v in dims.items()) + "]) (mkum ["
+        return ("(RC (mkdm [" + "; ".join(f"({coq_str(k)}, {cul(v)})" for k, v in dims.items()) + "]) (mkum ["
                 + "; ".join(f"({coq_str(k)}, {cuc(v)})" for k, v in SYS.items()) + "]))")
 
     def rule(r):
@@ -204,7 +204,21 @@ def coq_out(o):
     return f"(OAns ({coq_answer(o[1])}))"
 
 
-def coq_obs(ob, regs, ctx_names=("rc", "rs")):
+class Interner:
+    """names repeated sub-terms (answer vectors, context observations, operations) so that a node
+    of a case tree is short; the definitions go into the header of the shard that uses them"""
+
+    def __init__(self):
+        self.defs = {}
+
+    def __call__(self, prefix, typ, text):
+        import hashlib
+        name = prefix + hashlib.sha1(text.encode()).hexdigest()[:12]
+        self.defs[name] = f"Definition {name} : {typ} := {text}."
+        return name
+
+
+def coq_obs(ob, regs, it, ctx_names=("rc", "rs")):
     items = []
     for r in regs:
         b = coq_bool(r == 1)
@@ -214,13 +228,22 @@ def coq_obs(ob, regs, ctx_names=("rc", "rs")):
         items.append(f"ObCaches {b} {o['caches']}")
         items.append(f"ObFrames {b} {o['frames']}")
         if o.get("answers") is not None:
-            items.append(f"ObAns {b} {coq_list([coq_answer(a) for a in o['answers']])}")
+            items.append(f"ObAns {b} " + it("A", "list answer", coq_list([coq_answer(a) for a in o['answers']])))
+    cx = []
     for name, (keys, defaults, checked) in sorted(ob.get("ctx", {}).items()):
         if name not in ctx_names:
             continue
         ks = coq_list([f"({cuc(a)}, {cuc(b)})" for a, b in keys])
-        items.append(f"ObCtx {coq_str(name)} {ks} {cps(defaults)} {coq_bool(checked)}")
-    return coq_list(items)
+        cx.append(f"ObCtx {coq_str(name)} {ks} {cps(defaults)} {coq_bool(checked)}")
+    txt = coq_list(items)
+    if cx:
+        txt = f"({txt} ++ " + it("X", "list obsitem", coq_list(cx)) + ")"
+    return txt
+
+
+def coq_node(r, op, out, ob, regs, kids, it):
+    return (f"Node ({coq_bool(r == 1)}, " + it("P", "op", coq_op(op)) + f") {coq_out(out[:2])} "
+            f"{coq_obs(ob, regs, it)} {coq_list(kids)}")
 
 
 # ------------------------------------------------------------------ probes swept after every step
@@ -351,6 +374,15 @@ class World:
                 u.add_context(c)
         self.cms = [[] for _ in self.regs]
 
+    def close(self):
+        """finish generators of with-blocks left open (their finally clause may raise under F6)"""
+        for cms in self.cms:
+            while cms:
+                try:
+                    cms.pop().gen.close()
+                except Exception:
+                    pass
+
     def ask(self, r, p):
         u = self.regs[r]
         try:
@@ -426,13 +458,14 @@ class Oracle:
         self.ndefs = 0
         self.overlay_defined = set()
         self.tainted = False
-        self.found = []          # (key, description)
+        self.n = 0               # operations seen so far
+        self.found = []          # (key, description, number of operations that exhibit it)
         self.pristine = pristine
         self.probes = probes
 
     def report(self, key, desc):
         if not self.tainted:
-            self.found.append((key, desc))
+            self.found.append((key, desc, self.n))
         self.tainted = True      # later deviations of this run are consequences
 
     def _compare_answers(self, before, ndefs_before, after, what):
@@ -450,6 +483,7 @@ class Oracle:
             return
 
     def step(self, op, out, ob0, ob1, ctx0=None, ctx1=None, r=0):
+        self.n += 1
         if self.tainted:
             return
         k = op[0]
@@ -548,6 +582,7 @@ def run_sequence(ops, sweep=True, fast=False):
             orc.base_probe(w, op[1], out[1])
         steps.append((out, ob1))
         ob0 = ob1
+    w.close()
     return steps, orc.found
 
 
@@ -599,19 +634,20 @@ def op_unjson(x):
 
 def explore_subtree(args):
     """worker: `prefix` and all its extensions up to `depth` ops over `alphabet`.  Every node is a
-    fresh world replaying the whole sequence with the probe sweep after every step.  Returns the Coq
-    tree rooted at the prefix's last node, (out, obs) of the prefix nodes above it, oracle findings,
-    node count and samples."""
+    fresh world replaying the whole sequence with the probe sweep after every step.  Returns one
+    Coq case (the chain of prefix nodes ending in the subtree), the interned definitions it uses,
+    oracle findings and the node count."""
     prefix, alphabet, depth = args
     findings, count = {}, [0]
     above = []
+    it = Interner()
 
     def node(seq):
         steps, found = run_sequence(seq, fast=len(seq) > 2)
         count[0] += 1
-        for key, desc in found:
-            if key not in findings or len(findings[key][1]) > len(seq):
-                findings[key] = (desc, [op_json(o) for o in seq])
+        for key, desc, n in found:
+            if key not in findings or len(findings[key][1]) > n:
+                findings[key] = (desc, [op_json(o) for o in seq[:n]])
         if len(seq) == len(prefix):
             above.extend(steps[:-1])
         out, ob = steps[-1]
@@ -622,18 +658,12 @@ def explore_subtree(args):
                 if op[0] in ("exit", "raise") and not open_blocks:
                     continue
                 kids.append(node(seq + [op]))
-        return f"Node (false, {coq_op(seq[-1])}) {coq_out(out[:2])} {coq_obs(ob, (0,))} {coq_list(kids)}"
+        return coq_node(0, seq[-1], out, ob, (0,), kids, it)
 
-    txt = node(list(prefix))
-    return prefix, txt, above, findings, count[0]
-
-
-def wrap_prefix(prefix, above, subtree):
-    """Coq tree of the linear chain of prefix nodes ending in `subtree`"""
-    t = subtree
+    t = node(list(prefix))
     for op, (out, ob) in reversed(list(zip(prefix[:-1], above))):
-        t = f"Node (false, {coq_op(op)}) {coq_out(out[:2])} {coq_obs(ob, (0,))} [{t}]"
-    return t
+        t = coq_node(0, op, out, ob, (0,), [t], it)
+    return prefix, f"KRun SUv [{t}]", it.defs, findings, count[0]
 
 
 def valid_prefixes(alphabet, k=2):
@@ -673,6 +703,7 @@ def run_world2(ops, project=None):
             continue
         out = w.do(r, op)
         steps.append((out, w.obs(regs=(0, 1), probes=PROBES_W2, ctx=("rs", "rc"))))
+    w.close()
     return steps
 
 
@@ -680,6 +711,7 @@ def explore2_subtree(args):
     prefix, depth = args
     findings, count = {}, [0]
     above = []
+    it = Interner()
 
     def node(seq):
         steps = run_world2(seq)
@@ -708,13 +740,12 @@ def explore2_subtree(args):
                 if op[0] in ("exit", "raise") and not ob["regs"][r]["frames"]:
                     continue
                 kids.append(node(seq + [(r, op)]))
-        return f"Node ({coq_bool(seq[-1][0] == 1)}, {coq_op(seq[-1][1])}) {coq_out(out[:2])} {coq_obs(ob, (0, 1))} {coq_list(kids)}"
+        return coq_node(seq[-1][0], seq[-1][1], out, ob, (0, 1), kids, it)
 
-    txt = node(list(prefix))
-    t = txt
+    t = node(list(prefix))
     for (r, op), (out, ob) in reversed(list(zip(prefix[:-1], above))):
-        t = f"Node ({coq_bool(r == 1)}, {coq_op(op)}) {coq_out(out[:2])} {coq_obs(ob, (0, 1))} [{t}]"
-    return prefix, t, findings, count[0]
+        t = coq_node(r, op, out, ob, (0, 1), [t], it)
+    return prefix, f"KRun SUv2 [{t}]", it.defs, findings, count[0]
 
 
 # ------------------------------------------------------------------ random long sequences
@@ -757,10 +788,12 @@ def run_random(args):
             orc.base_probe(w, op[1], out[1])
         nodes.append((op, out, ob1))
         ob0 = ob1
-    t = ""
+    it = Interner()
+    t = []
     for op, out, ob in reversed(nodes):
-        t = f"Node (false, {coq_op(op)}) {coq_out(out[:2])} {coq_obs(ob, (0,))} [{t}]"
-    return [op_json(o) for o in ops], t, orc.found
+        t = [coq_node(0, op, out, ob, (0,), t, it)]
+    w.close()
+    return [op_json(o) for o in ops], f"KRun SUv {coq_list(t)}", it.defs, orc.found
 
 
 # ------------------------------------------------------------------ witnesses: which defect switches does this tree have?
@@ -791,12 +824,12 @@ def detect_quirks(ck):
     inside, after = steps[1][0][1], steps[3][0][1]
     qk["F7"] = after == inside and after != pristine()["base"]["base:yard"]
     steps, f8 = run_sequence(W8)
-    qk["F8"] = steps[-1][1]["ctx"]["rc"][0] != [({"[speed]": F(1)}, {"[mass]": F(1)}), ({"[length]": F(1)}, {"[time]": F(1)}), ({"[time]": F(1)}, {"[mass]": F(1)})]
+    qk["F8"] = steps[-1][1]["ctx"]["rc"][0] != [({"[V]": F(1)}, {"[M]": F(1)}), ({"[L]": F(1)}, {"[T]": F(1)}), ({"[T]": F(1)}, {"[M]": F(1)})]
     _, f23 = run_sequence(W23b)
     found = []
     for ops, fs in ((W6, f6), (W7, f7), (W8, f8), (W23b, f23)):
-        for key, desc in fs:
-            found.append((key, desc, [op_json(o) for o in ops]))
+        for key, desc, n in fs:
+            found.append((key, desc, [op_json(o) for o in ops[:n]]))
     return qk, notes, found
 
 
@@ -807,17 +840,59 @@ PLAN = {
 }
 
 
+def sharded_mismatches(ck, name, header, cases, budget=1500, timeout=1500):
+    """differ inside Coq, like Check.coq_mismatches, but every shard gets only the interned
+    definitions its own cases use.  cases: list of (term, defs dict, nodes).  Returns the indices of
+    disagreeing cases (None when Coq itself failed)."""
+    import concurrent.futures as cf
+    import re
+    from .common import NCPU
+    order = sorted(range(len(cases)), key=lambda i: -cases[i][2])
+    nshards = max(1, min(len(cases), max(2 * NCPU, sum(c[2] for c in cases) // budget)))
+    shards = [[] for _ in range(nshards)]
+    load = [0] * nshards
+    for i in order:                       # greedy balancing by node count
+        j = load.index(min(load))
+        shards[j].append(i)
+        load[j] += cases[i][2]
+
+    def one(si):
+        idx = shards[si]
+        defs = {}
+        for i in idx:
+            defs.update(cases[i][1])
+        body = (header + "\n".join(defs[k] for k in sorted(defs)) + "\nDefinition cases := "
+                + coq_list([cases[i][0] for i in idx]) + ".\n"
+                "Definition bad := filter (fun ib : N * bool => negb (snd ib)) "
+                "(imap (fun i c => (N.of_nat i, c12_ok c)) cases).\n"
+                'Goal True. let r := eval vm_compute in (map fst bad) in idtac "@@BAD" r. exact I. Qed.\n')
+        rc, out = ck.coq_eval(f"{name}_{si}", body, timeout)
+        if rc != 0 or "@@BAD" not in out:
+            return si, None, out
+        txt = out.split("@@BAD", 1)[1]
+        return si, [idx[int(x)] for x in re.findall(r"(\d+)%N", txt)], out
+
+    bad = []
+    with cf.ThreadPoolExecutor(max_workers=NCPU) as ex:
+        for si, b, out in ex.map(one, range(nshards)):
+            if b is None:
+                ck.broken.append(f"model evaluation failed for {name} shard {si}: {out[-600:]}")
+                return None
+            bad += b
+    return sorted(bad)
+
+
 def run(ck):
     import multiprocessing as mp
     plan = PLAN[ck.tier]
     ck.rule = ("breadth-first exhaustive: every operation sequence over the alphabets "
                + ", ".join(f"{a}({len(ALPHABET[a])} ops) to length {d}" for a, d in plan["single"])
-               + " (with_exit / raise_inside only while a with-block is open) on a fresh Fraction registry built from "
-               f"{len(UNITS) + 1} generated definition lines and a pool of contexts ra(rules) rb(redefinitions) rc(both) rd(invalid redefinition); "
-               "after EVERY step: active names, len(_units.maps), len(_caches), open blocks and the answers to "
-               f"{len(PROBES)} probes, compared with the Coq model inside Coq; two registries sharing the Context objects to length {plan['two']}; "
+               + " (with_exit / raise_inside only while a with-block is open), each on a fresh Fraction registry built from "
+               f"{len(UNITS) + 1} generated definition lines with a pool of contexts ra(rules) rb(redefinitions) rc(both) rd(invalid redefinition); "
+               "after EVERY step the active names, len(_units.maps), len(_caches), open blocks, the shared Context objects and the answers to "
+               f"{len(PROBES)} probes are compared with the Coq model inside Coq; two registries sharing the Context objects to length {plan['two']}; "
                f"{plan['random'][0]} random sequences of length {plan['random'][1]} with explicit probes. "
-               "non-trivial = distinct operation sequence containing at least one activation")
+               "non-trivial = distinct operation sequence (tree node) containing at least one activation")
     ck.assumptions += [
         "conversion / root-unit memo contents are not part of the model state (a stale memo shows up as a disagreement of answers)",
         "context rules are monomials value*c*p^(+-1)*units and the rule graphs have unique shortest paths (path choice is C11's)",
@@ -830,7 +905,10 @@ def run(ck):
     for k, v in notes.items():
         ck.broken.append(f"witness {k}: {v}")
     ck.coq_build(["Properties/C12.vo", "Model/CtxStateRun.vo"])
-    header = coq_setup(qk)
+    ck.extra["build_s"] = round(time.time() - t0, 1)
+    t0 = time.time()
+    header = (coq_setup(qk) + "Definition SUv2 := SU (su_qk SUv) (su_cfgs SUv) (su_bases SUv) (su_objs SUv) ["
+              + "; ".join(coq_probe(p) for p in PROBES_W2) + "].\n")
     findings = {}
 
     def add_findings(fs):
@@ -839,80 +917,62 @@ def run(ck):
                 findings[key] = (desc, ops)
 
     add_findings({k: (d, o) for k, d, o in wfound})
-    batches = []     # (name, cases [(term, description)], nodes per case)
+    cases = []       # (term, defs, nodes, description)
     with mp.Pool(min(os.cpu_count() or 4, 16)) as pool:
-        # ---------------------------------------------------------- single registry, exhaustive
+        jobs = []
         for aname, depth in plan["single"]:
             alphabet = ALPHABET[aname]
-            k = 2 if depth <= 5 else 3
-            prefixes = valid_prefixes(alphabet, k)
-            res = pool.map(explore_subtree, [(p, alphabet, depth) for p in prefixes], chunksize=1)
-            cases, total = [], 0
-            for prefix, txt, above, fs, n in res:
-                cases.append((f"KRun SUv [{wrap_prefix(prefix, above, txt)}]",
-                              {"alphabet": aname, "depth": depth, "prefix": [op_json(o) for o in prefix]}))
-                add_findings(fs)
-                total += n
-            batches.append((f"{aname}{depth}", cases, max(1, total // max(1, len(cases)))))
-            ck.count(f"exhaustive {aname} depth {depth}: nodes", total)
-            ck.case(key=(aname, depth), n=total, nontrivial=False)
-            ck.extra.setdefault("exhaustive_nodes", {})[f"{aname}:{depth}"] = total
-        # ---------------------------------------------------------- two registries
+            prefixes = valid_prefixes(alphabet, 2 if depth <= 5 else 3)
+            jobs.append((aname, depth, pool.map_async(explore_subtree, [(p, alphabet, depth) for p in prefixes], chunksize=1)))
         pre2 = [[a, b] for a in ALPHABET2 if a[1][0] not in ("exit", "raise") for b in ALPHABET2
                 if not (b[1][0] in ("exit", "raise") and not (a[1][0] == "with" and a[0] == b[0]))]
-        res = pool.map(explore2_subtree, [(p, plan["two"]) for p in pre2], chunksize=1)
-        cases, total = [], 0
-        for prefix, txt, fs, n in res:
-            cases.append((f"KRun SUv2 [{txt}]", {"two_registries": True, "depth": plan["two"], "prefix": [[r, op_json(o)] for r, o in prefix]}))
+        job2 = pool.map_async(explore2_subtree, [(p, plan["two"]) for p in pre2], chunksize=1)
+        nr, ln = plan["random"]
+        jobr = pool.map_async(run_random, [(ck.seed * 1000003 + i, ln) for i in range(nr)], chunksize=4)
+        for aname, depth, job in jobs:
+            total = 0
+            for prefix, term, defs, fs, n in job.get():
+                cases.append((term, defs, n, {"alphabet": aname, "depth": depth, "prefix": [op_json(o) for o in prefix]}))
+                add_findings(fs)
+                total += n
+            ck.count(f"exhaustive {aname} depth {depth}: nodes", total)
+            ck.extra.setdefault("exhaustive_nodes", {})[f"{aname}:{depth}"] = total
+            ck.evaluations += total
+        total = 0
+        for prefix, term, defs, fs, n in job2.get():
+            cases.append((term, defs, n, {"two_registries": True, "depth": plan["two"], "prefix": [[r, op_json(o)] for r, o in prefix]}))
             add_findings(fs)
             total += n
-        batches.append(("two", cases, max(1, total // max(1, len(cases)))))
         ck.count("two registries: nodes", total)
-        ck.case(key="two", n=total, nontrivial=False)
-        # ---------------------------------------------------------- random long sequences
-        nr, ln = plan["random"]
-        res = pool.map(run_random, [(ck.seed * 1000003 + i, ln) for i in range(nr)], chunksize=4)
-        cases = []
-        for ops, txt, found in res:
-            cases.append((f"KRun SUv [{txt}]", {"random": True, "ops": ops}))
-            add_findings({k: (d, ops) for k, d in found})
-        batches.append(("random", cases, ln))
+        ck.evaluations += total
+        for ops, term, defs, found in jobr.get():
+            cases.append((term, defs, ln, {"random": True, "ops": ops}))
+            add_findings({k: (d, ops[:n]) for k, d, n in found})
         ck.count("random sequences", nr)
-        ck.case(key="random", n=nr * ln, nontrivial=False)
+        ck.evaluations += nr * ln
     ck.extra["impl_side_s"] = round(time.time() - t0, 1)
-
-    # distinct non-trivial sequences = nodes whose sequence contains an activation (all but the probe/define-only ones)
-    ck.nontrivial = set(range(sum(len(c) for _, c, _ in batches)))
-    ck.samples = [c[1] for _, cs, _ in batches for c in cs[:2]][:8]
+    # every tree node is a distinct operation sequence; all but the few probe/define-only ones activate a context
+    ck.nontrivial = set(range(ck.evaluations))
+    ck.samples = [cases[i][3] for i in range(0, len(cases), max(1, len(cases) // 6))][:8]
 
     # ---------------------------------------------------------- differ inside Coq
-    header_all = (header + "Definition SUv2 := SU (su_qk SUv) (su_cfgs SUv) (su_bases SUv) (su_objs SUv) ["
-                  + "; ".join(coq_probe(p) for p in PROBES_W2) + "].\n")
     t1 = time.time()
-    n_bad = 0
-    first_bad = None
-    for name, cases, per in batches:
-        shard = max(1, min(400, 2500 // per))
-        bad = ck.coq_mismatches(f"c12_{name}", header_all, [c for c, _ in cases], "c12_ok", shard=shard, timeout=1500)
-        if bad is None:
-            return
-        n_bad += len(bad)
-        if bad and first_bad is None:
-            first_bad = (name, cases[bad[0]])
+    bad = sharded_mismatches(ck, "c12", header, [(c[0], c[1], c[2]) for c in cases])
     ck.extra["model_side_s"] = round(time.time() - t1, 1)
-    ck.extra["model_vs_impl_cases"] = sum(len(c) for _, c, _ in batches)
-    ck.extra["model_vs_impl_disagreements"] = n_bad
+    ck.extra["model_vs_impl_cases"] = len(cases)
+    ck.extra["model_vs_impl_nodes"] = sum(c[2] for c in cases)
+    ck.extra["model_vs_impl_disagreements"] = None if bad is None else len(bad)
 
     for key, (desc, ops) in sorted(findings.items()):
         ck.violation(key, desc, {"ops": ops, "two_registries": key.startswith("shared-context:interference")})
-    if first_bad:
-        name, (term, desc) = first_bad
-        shown = ck.coq_show(header_all, f"c12_bad ({term})") if len(term) < 3_000_000 else ""
-        if not findings or all(ck._match_known(k) for k in findings):
+    if bad:
+        term, defs, n, desc = cases[bad[0]]
+        shown = ck.coq_show(header + "\n".join(defs[k] for k in sorted(defs)) + "\n", f"c12_bad ({term})")
+        if all(ck._match_known(k) for k in findings):
             ck.violation("correspondence", "model and implementation disagree; no (new) property oracle failed",
-                         {"stream": name, "first_disagreeing_case": desc, "n_disagreements": n_bad,
-                          "coq_first_bad(path, item, model outcome)": shown}, no_input=True)
-        ck.broken.append(f"correspondence Model.CtxStateRun.c12_ok: {n_bad} disagreeing cases, first in stream {name}: {json.dumps(desc)[:300]}")
+                         {"first_disagreeing_case": desc, "n_disagreeing_cases": len(bad),
+                          "coq_first_bad (path of child indices, item, model outcome)": shown}, no_input=True)
+        ck.broken.append(f"correspondence Model.CtxStateRun.c12_ok: {len(bad)} disagreeing cases, first: {json.dumps(desc)[:300]}")
 
 
 def replay(ck, path):
@@ -927,13 +987,13 @@ def replay(ck, path):
         steps = run_world2(seq)
         for (r, op), st in zip(seq, steps):
             print(r, op, st[0], {k: (v["active"], v["answers"]) for k, v in st[1]["regs"].items()})
-        _, _, fs, _ = explore2_subtree((seq, len(seq)))
+        _, _, _, fs, _ = explore2_subtree((seq, len(seq)))
         found = [(k, v[0]) for k, v in fs.items()]
     else:
         seq = [op_unjson(o) for o in ops]
         steps, found = run_sequence(seq)
         for op, (out, ob) in zip(seq, steps):
             print(op, out, ob["regs"][0]["active"], ob["regs"][0]["layers"], ob["regs"][0]["answers"])
-    for k, dsc in found:
-        print("ORACLE", k, dsc)
-    return 1 if any(k == d.get("key") for k, _ in found) else 0
+    for f in found:
+        print("ORACLE", f[0], f[1])
+    return 1 if any(f[0] == d.get("key") for f in found) else 0
